@@ -106,6 +106,7 @@ var props = map[string]*prop{
 		jobs: []job{
 			regress,
 			{name: "errors", run: "^TestC15_Errors$", shards: [2]int{4, 16}, checks: [2]int{5000, 300000}},
+			{name: "fuzz", fuzz: "FuzzC15", thoroughOnly: true, fuzzTime: [2]time.Duration{0, 60 * time.Second}, weight: 16},
 		},
 		assumptions: baseAssumptions,
 	},
@@ -125,6 +126,7 @@ var props = map[string]*prop{
 			{name: "concurrent", run: "^TestC10_Concurrent$", weight: 8},
 			{name: "sweep", run: "^TestC10_WordSweep$", shards: [2]int{2, 10}},
 			{name: "respell", run: "^TestC10_Respell$", shards: [2]int{4, 16}, checks: [2]int{4000, 100000}},
+			{name: "fuzz", fuzz: "FuzzC10", thoroughOnly: true, fuzzTime: [2]time.Duration{0, 60 * time.Second}, weight: 16},
 		},
 		assumptions: baseAssumptions,
 	},
@@ -154,6 +156,7 @@ var props = map[string]*prop{
 			regress,
 			{name: "grid", run: "^TestC06_Grid$", shards: [2]int{2, 8}},
 			{name: "random", run: "^TestC06_Random$", shards: [2]int{2, 16}, checks: [2]int{10000, 200000}},
+			{name: "fuzz", fuzz: "FuzzC06", thoroughOnly: true, fuzzTime: [2]time.Duration{0, 60 * time.Second}, weight: 16},
 		},
 		assumptions: baseAssumptions,
 	},
@@ -182,6 +185,7 @@ var props = map[string]*prop{
 			regress,
 			{name: "range", run: "^TestC09_Range$", shards: [2]int{1, 16}},
 			{name: "random", run: "^TestC09_Random$", shards: [2]int{1, 16}, checks: [2]int{20000, 300000}},
+			{name: "fuzz", fuzz: "FuzzC09", thoroughOnly: true, fuzzTime: [2]time.Duration{0, 60 * time.Second}, weight: 16},
 		},
 		assumptions: baseAssumptions,
 	},
